@@ -428,6 +428,9 @@ def c15(tier, seed):
     nj, nh = (8, 200) if tier == "quick" else (32, 1000)
     return dict(
         jobs=[dict(kind="hist15", n_histories=nh, **_seeds(seed, k)) for k in range(nj)]
+        # a DAG returned by compose() is a DAG too: its second call does not remember the first one's arguments
+        + [dict(kind="comp19", pid="C15", n_cases=(150 if tier == "quick" else 1500), only=["composed_dag_call_depends_on_an_earlier_call"],
+                **_seeds(seed + 33, k)) for k in range(2 if tier == "quick" else 8)]
         # at max_concurrency=1 with tie-free priorities the k-th call of one object starts its nodes in the same order as the first
         + [dict(kind="cp", pid="C15", exhaustive_n=[2, 3, 4] if tier == "quick" else [2, 3, 4, 5], part=0, nparts=1, random_cases=(20 if tier == "quick" else 200),
                 seed=seed * 97 + 70 + h, hashseed=h, variants={"debug": 1, "retry": 1}) for h in range(1 if tier == "quick" else 4)]
